@@ -98,6 +98,19 @@ def ptrLeafCountList : List JVal → Nat
   | v :: vs => ptrLeafCount v + ptrLeafCountList vs
 end
 
+mutual
+/-- What a copy is compared with: the source, where a nil pointer to a map (whose copy cannot be a nil pointer: the
+copy is built in a fresh map) stands for a pointer to an empty map in the same holding form. The identity on trees
+without a nil pointer to a map. -/
+def jCopyNorm : JVal → JVal
+  | .map hold nilAt mapNil ks vs =>
+    if nilAt != 0 then .map hold 0 false [] [] else .map hold 0 mapNil ks (jCopyNormList vs)
+  | x => x
+def jCopyNormList : List JVal → List JVal
+  | [] => []
+  | v :: vs => jCopyNorm v :: jCopyNormList vs
+end
+
 /-- Frame of Set: along the path only the addressed entries may differ; no other key appears. -/
 def samapFrame (b a : JVal) (p : List Bytes) (fuel : Nat) : Bool :=
   match fuel, p with
@@ -114,6 +127,11 @@ def samapFrame (b a : JVal) (p : List Bytes) (fuel : Nat) : Bool :=
       ks2.all (fun ak => ak == k || (JVal.lookup ks1 vs1 ak).isSome)
     | _, _ => jeq b a
 
+/-- The leaf Set has to store: text is copied (pointer forms dereferenced), everything else is stored as given.
+`none`: a typed-nil `*string` / `*[]byte` value — outside C18, nothing is demanded of what is stored. -/
+def samapStoredLeaf (src : Src) : Option JVal :=
+  if src.kind.family == .text && src.v.isNilPtr then none else samapLeafOf LibCfg.fixed src
+
 /-- Set replaces exactly the addressed leaf, creating intermediate maps; nothing else changes. -/
 def samapSetAccepts (j : JVal) (p : List Bytes) (src : Src) (o : JSet) : Bool :=
   match o with
@@ -121,7 +139,7 @@ def samapSetAccepts (j : JVal) (p : List Bytes) (src : Src) (o : JSet) : Bool :=
   | .ok after | .unsupported after =>
     let framed := samapFrame j after p (p.length + 1)
     let stored : Bool :=
-      match p, samapLeafOf src with
+      match p, samapStoredLeaf src with
       | _ :: _, some x =>
         (match jnav after p with
          | .found y => jeq x y
